@@ -262,3 +262,20 @@ def cmp_branch(st, ev):
         else:
             break
     return strip(d), truth
+
+
+def chase_def(body, op, depth=6):
+    """the rvalue that defines an operand, looking through plain copies of single-assignment locals (named or not)"""
+    l = op_local(op)
+    if l is None or (is_place_op(op) and op['place']['p']):
+        return None
+    for _ in range(depth):
+        ds = body.defs.get(l, [])
+        if len(ds) != 1 or ds[0][0] != 'stmt':
+            return None
+        rv = ds[0][3]['rv']
+        if rv['rv'] == 'use' and is_place_op(rv['op']) and not rv['op']['place']['p']:
+            l = rv['op']['place']['l']
+            continue
+        return rv
+    return None
